@@ -317,6 +317,14 @@ func (c11) Run(c *wk.Case) {
 		total += ng
 		for i := range outs {
 			if iso := jobs[i].iso; iso != nil {
+				// A program the model leaves open AND with a construct whose order the documentation leaves open
+				// (groupBy*, unique*, evaluated maps, random) has no single correct outcome - even whether it fails
+				// may depend on that order (a switch over the string form of an evaluated map): such a program is
+				// only watched by the race detector.
+				if strings.Contains(src, "groupBy") || strings.Contains(src, "unique") || strings.Contains(src, ".eval()") || strings.Contains(src, "random(") {
+					c.Count("order_open_programs_not_compared", 1)
+					continue
+				}
 				bad := (iso.Err == nil) != (outs[i].Err == nil)
 				why := ""
 				// values are compared only if the program has no construct whose order the documentation leaves
